@@ -31,33 +31,27 @@ Definition cmd_schema := list (bytes * fspec).  (* command MiniSchema *)
     starts with (0 when it starts with none). *)
 Definition ws_prefix (s : bytes) : nat :=
   match s with
+  | [] => 0%nat
   | c :: r =>
       if is_ascii_ws c then 1%nat
-      else if c =? 194 then
+      else
         match r with
-        | d :: _ => if (d =? 133) || (d =? 160) then 2%nat else 0%nat
         | [] => 0%nat
+        | d :: r2 =>
+            if c =? 194 then (if (d =? 133) || (d =? 160) then 2%nat else 0%nat)
+            else
+              match r2 with
+              | [] => 0%nat
+              | e :: _ =>
+                  if (c =? 225) && (d =? 154) && (e =? 128) then 3%nat
+                  else if (c =? 226) && (d =? 128)
+                          && (((128 <=? e) && (e <=? 138)) || (e =? 168) || (e =? 169) || (e =? 175))
+                  then 3%nat
+                  else if (c =? 226) && (d =? 129) && (e =? 159) then 3%nat
+                  else if (c =? 227) && (d =? 128) && (e =? 128) then 3%nat
+                  else 0%nat
+              end
         end
-      else if c =? 225 then
-        match r with
-        | 154 :: 128 :: _ => 3%nat
-        | _ => 0%nat
-        end
-      else if c =? 226 then
-        match r with
-        | 128 :: d :: _ =>
-            if ((128 <=? d) && (d <=? 138)) || (d =? 168) || (d =? 169) || (d =? 175)
-            then 3%nat else 0%nat
-        | 129 :: 159 :: _ => 3%nat
-        | _ => 0%nat
-        end
-      else if c =? 227 then
-        match r with
-        | 128 :: 128 :: _ => 3%nat
-        | _ => 0%nat
-        end
-      else 0%nat
-  | [] => 0%nat
   end.
 
 (** [s.trim().is_empty()]: the string consists of white-space characters only.
